@@ -26,13 +26,14 @@ TECH = {
  "C19": "static analysis: handler structure/dominance in single_request + normalised status test + provenance of returned values + cross-call state store table",
  "C20": "static analysis: dominance of the handler lookup + provenance of forwarded customisation arguments + term-shape of the ignore list / known_types",
 }
+from rules import closed_world
 checks = []
 for p in props:
     pid = p["id"]
     m = importlib.import_module("rules.%s" % pid.lower())
     meta = m.META
     text = ("Necessary structural clauses of the property are decided on /repo's current sources; the behaviour as a whole is not. "
-            + meta["explanation"] + " NOT decided: " + meta["does_not_decide"])
+            + meta["explanation"] + closed_world.EXPLANATION + " NOT decided: " + meta["does_not_decide"])
     checks.append({
         "property_id": pid,
         "quick_cmd": "/venv/bin/python bin/vcheck %s --tier quick" % pid,
